@@ -30,7 +30,7 @@ EXTENDS GroupObs, TLC, Json
 
 CONSTANTS Clients, NP, LogLen, Initials, CommitChoices, Autos, MaxCalls,
           ReqKinds, CommitKinds, LeaveKinds, HbKinds, TrigKinds, FaultBudget, TrigBudget, DataFaults,
-          Handlers, RetryMax, Emit, Bug
+          Handlers, RetryMaxes, OffsetRetries, Emit, Bug
 
 VARIABLES cfg, co, cl, fb, tb, script, obs
 vars == <<cfg, co, cl, fb, tb, script, obs>>
@@ -57,10 +57,11 @@ ClientInit ==
 
 ResetEvent(c) ==
   [ev |-> "reset", initial |-> c.initial, loglen |-> LogLen, logstart |-> 0, auto |-> c.auto,
-   hbretry |-> HbRetry, committed |-> c.committed]
+   hbretry |-> HbRetry, committed |-> c.committed, rretry |-> c.rretry, oretry |-> c.oretry]
 
 Init ==
-  /\ cfg \in [initial : Initials, auto : Autos, committed : CommitChoices]
+  \* rretry = Consumer.Group.Rebalance.Retry.Max, oretry = Consumer.Offsets.Retry.Max (final commit: oretry + 1 attempts)
+  /\ cfg \in [initial : Initials, auto : Autos, committed : CommitChoices, rretry : RetryMaxes, oretry : OffsetRetries]
   /\ co = [gs |-> "Empty", gen |-> 0, mem |-> {}, own |-> <<>>, num |-> <<>>, joined |-> {}, leader |-> "",
            asg |-> <<>>, store |-> [p \in Parts |-> cfg.committed[p + 1]], nid |-> 0,
            hi |-> [p \in Parts |-> 0], anySetup |-> FALSE, dfb |-> DataFaults]
@@ -120,7 +121,10 @@ Verdict(g, m, gn, kind) ==
 -----------------------------------------------------------------------------
 (* client-side handling of an error answer to join / sync (newSession's switch) *)
 AfterJoinSyncError(x, k) ==
-  CASE k \in {"unknown", "illegal"} -> [x EXCEPT !.mid = IF Bug = "keep_member_id" THEN @ ELSE "", !.pc = "join"]
+  CASE k \in {"unknown", "illegal"} ->
+         \* the member id is reset and the join repeated at once, whatever is left of the retry budget
+         IF Bug = "fence_keeps_id_without_budget" /\ x.retries <= 0 THEN [x EXCEPT !.pc = "reterr"]
+         ELSE [x EXCEPT !.mid = IF Bug = "keep_member_id" THEN @ ELSE "", !.pc = "join"]
     [] k \in {"notcoord", "rebalance"} ->
          IF x.retries <= 0 \/ x.closed # "no" THEN [x EXCEPT !.pc = "reterr"]
          ELSE [x EXCEPT !.retries = @ - 1, !.pc = "join"]
@@ -150,7 +154,7 @@ ConsumeCall(c) ==
           /\ Emitting(<<[ev |-> "consume_call", c |-> c], [ev |-> "consume_ret", c |-> c, err |-> "closed"]>>)
           /\ script' = AppendSess(c, NoHandler)
      ELSE \E h \in Handlers :
-          /\ cl' = [cl EXCEPT ![c].calls = @ + 1, ![c].pc = "join", ![c].retries = RetryMax,
+          /\ cl' = [cl EXCEPT ![c].calls = @ + 1, ![c].pc = "join", ![c].retries = cfg.rretry,
                               ![c].h = h, ![c].trig = 0, ![c].nj = 0, ![c].ns = 0, ![c].df = -1]
           /\ Emitting(<<[ev |-> "consume_call", c |-> c]>>)
           /\ script' = AppendSess(c, h)
@@ -362,7 +366,7 @@ CommitReq(c, k, final) ==
       g0 == IF k = "unknown" THEN Remove(co, x.sid) ELSE co IN
   /\ co' = IF ok THEN [g0 EXCEPT !.store = [p \in Parts |-> IF p \in x.dirty THEN x.mk[p] ELSE @[p]]] ELSE g0
   /\ cl' = [cl EXCEPT ![c].dirty = IF ok THEN {} ELSE @,
-                      ![c].pc = IF ~final THEN @ ELSE IF ok \/ x.ftry >= 1 THEN "hbstop" ELSE "final",
+                      ![c].pc = IF ~final THEN @ ELSE IF ok \/ x.ftry >= cfg.oretry THEN "hbstop" ELSE "final",
                       ![c].ftry = IF final THEN @ + 1 ELSE @, ![c].ac = IF final THEN @ ELSE @ + 1]
   /\ Emitting(<<[ev |-> "commit", c |-> c, mid |-> x.sid, gen |-> gen, err |-> v, blocks |-> blocks, applied |-> ok]>>)
   /\ script' = RecC(script, c, k)
@@ -375,11 +379,11 @@ AutoCommit(c) ==
        /\ fb' = IF k = "ok" THEN fb ELSE fb - 1
   /\ UNCHANGED <<cfg, tb>>
 
-\* offsets.Close(): final flush, up to 1 + Retry.Max attempts while something is dirty (2 modelled)
+\* offsets.Close(): final flush, up to 1 + Consumer.Offsets.Retry.Max attempts while something is dirty
 FinalCommit(c) ==
   LET x == cl[c] IN
   /\ x.pc = "final"
-  /\ IF x.dirty = {} \/ Bug = "no_final_commit"
+  /\ IF x.dirty = {} \/ Bug = "no_final_commit" \/ (Bug = "final_commit_one_short" /\ x.ftry >= cfg.oretry)
      THEN /\ cl' = [cl EXCEPT ![c].pc = "hbstop"]
           /\ UNCHANGED <<co, fb, script, obs>>
      ELSE \E k \in {"ok"} \cup (IF fb > 0 THEN CommitKinds ELSE {}) :
@@ -534,6 +538,7 @@ HeartbeatStoppedOutside == \A c \in Clients : cl[c].pc \notin SessionPcs => cl[c
 
 Scenario ==
   [np |-> NP, loglen |-> LogLen, logstart |-> 0, initial |-> cfg.initial, auto |-> cfg.auto, committed |-> cfg.committed,
+   rretry |-> cfg.rretry, oretry |-> cfg.oretry,
    clients |-> [i \in 1..Len(SeqOfClients(Clients)) |->
                   LET c == SeqOfClients(Clients)[i] IN
                   [c |-> c, start |-> script[c].start, pre |-> script[c].pre, nsess |-> cl[c].calls, sess |-> script[c].sess, lf |-> script[c].lf]]]
